@@ -271,8 +271,18 @@ def rule_r4(ctx):
             writes.append(c)
         elif isinstance(c.func, ast.Attribute) and c.func.attr == "submit" and c.args and dotted_of(c.args[0]) == "convert_tensors_to_external":
             writes.append(c)
+    def implies_unsharded(t) -> bool:
+        # the test holds only when no shard limit was given: `<limit> is None`, or a conjunction containing it
+        if isinstance(t, ast.Compare) and len(t.ops) == 1 and isinstance(t.ops[0], ast.Is) and norm(t.left) == "max_shard_size_bytes" \
+                and isinstance(t.comparators[0], ast.Constant) and t.comparators[0].value is None:
+            return True
+        return isinstance(t, ast.BoolOp) and isinstance(t.op, ast.And) and any(implies_unsharded(v) for v in t.values)
+
+    def in_body(a, c):
+        return any(c is x for s_ in a.body for x in ast.walk(s_))
+
     single = [c for c in writes if isinstance(stmt_of(c), ast.Return) and any(
-        isinstance(a, ast.If) and "max_shard_size_bytes is None" in norm(a.test) for a in _anc(c))]
+        isinstance(a, ast.If) and implies_unsharded(a.test) and in_body(a, c) for a in _anc(c))]
     shard = [c for c in writes if c not in single]
     ctx.require(len(shard) >= 2, "shard write sites not found")
     for c in shard:
